@@ -53,6 +53,9 @@ pub enum Call {
     /// and cloned before it is taken apart again (anything cached by those must not outlive a
     /// later mutation)
     Rebuild,
+    /// like `Rebuild`, but the PURL is printed and parsed again, and the parser's parts are
+    /// what the builder continues with
+    Reparse,
     /// `if q.contains_key(k) { q[k] = v.into() }` on `b.parts.qualifiers` (IndexMut)
     PartsQualIndexMut(String, String),
     /// `if let Some(x) = q.get_mut(k) { *x = v.into() }`
@@ -95,7 +98,7 @@ impl Call {
                 }
             },
             Call::NoQuals | Call::PartsQualsFromIter(_) => Field::AllQuals,
-            Call::Rebuild => Field::Everything,
+            Call::Rebuild | Call::Reparse => Field::Everything,
             Call::Typed(i, _) => Field::Qual(TYPED_KEYS[*i as usize].to_string()),
             Call::Checksum(_) => Field::Qual("checksum".into()),
         }
@@ -215,6 +218,16 @@ impl BModel {
                     self.ty = b.ty;
                     self.name = b.name;
                     self.quals = b.quals.into_iter().collect();
+                }
+            },
+            Call::Reparse => {
+                // as Rebuild; in addition the parser keeps only the significant segments
+                if let Ok(b) = expected_build(self, self.typed) {
+                    self.ty = b.ty;
+                    self.name = b.name;
+                    self.quals = b.quals.into_iter().collect();
+                    self.ns = b.ns_segs.join("/");
+                    self.sub = b.sub_segs.join("/");
                 }
             },
             Call::PartsQualsFromIter(pairs) => {
@@ -354,6 +367,7 @@ pub fn universe_calls(typed: bool) -> Vec<Call> {
     }
     v.push(Call::Typed(0, None));
     v.push(Call::Rebuild);
+    v.push(Call::Reparse);
     for k in ["k", "K", "checksum", "!"] {
         v.push(Call::PartsQualIndexMut(k.into(), "im".into()));
         v.push(Call::PartsQualGetMut(k.into(), "".into()));
@@ -425,7 +439,7 @@ pub fn rand_cs_entries(r: &mut Rng) -> Vec<(String, CsVal)> {
 }
 
 pub fn rand_call(r: &mut Rng, typed: bool) -> Call {
-    match r.below(46) {
+    match r.below(47) {
         0..=3 => Call::Ns(rand_value(r)),
         4 => Call::NoNs,
         5..=8 => Call::Name(rand_value(r)),
@@ -456,6 +470,7 @@ pub fn rand_call(r: &mut Rng, typed: bool) -> Call {
         43 => Call::PartsQualGetMut(rand_key(r), rand_value(r)),
         44 => Call::PartsQualIterMutAppend(rand_value(r)),
         45 => Call::PartsQualEntry(rand_key(r), rand_value(r)),
+        46 => Call::Reparse,
         37 => {
             if typed {
                 Call::PartsType(r.pick(&model::KNOWN_TYPES).to_string())
@@ -517,7 +532,7 @@ pub fn stale_hist(r: &mut Rng, typed: bool) -> Hist {
     if r.chance(1, 4) {
         calls.push(Call::Sub(rand_value(r)));
     }
-    calls.push(Call::Rebuild);
+    calls.push(if r.chance(1, 3) { Call::Reparse } else { Call::Rebuild });
     let k = r.pick(&keys).clone();
     let k = if r.chance(1, 4) { k.to_ascii_uppercase() } else { k };
     let change = match r.below(10) {
